@@ -1342,11 +1342,29 @@ func (c *compiler) checkIdentifierLName(name unistring.String, offset int) {
 func (c *compiler) enterDummyMode() (leaveFunc func()) {
 	savedBlock, savedProgram := c.block, c.p
 	if savedBlock != nil {
-		c.block = &block{
-			typ:      savedBlock.typ,
-			label:    savedBlock.label,
-			outer:    savedBlock.outer,
-			breaking: savedBlock.breaking,
+		// Copy the whole chain of enclosing blocks, not just the innermost one: a break/continue compiled in dummy
+		// mode that targets (or passes through) an outer block must not be registered with the real block,
+		// otherwise its position in the dummy program is later patched into the real code.
+		copies := make(map[*block]*block)
+		var prev *block
+		for b := savedBlock; b != nil; b = b.outer {
+			nb := &block{
+				typ:      b.typ,
+				label:    b.label,
+				breaking: b.breaking,
+			}
+			copies[b] = nb
+			if prev != nil {
+				prev.outer = nb
+			} else {
+				c.block = nb
+			}
+			prev = nb
+		}
+		for _, nb := range copies {
+			if cp := copies[nb.breaking]; cp != nil {
+				nb.breaking = cp
+			}
 		}
 	}
 	c.p = &Program{
